@@ -35,6 +35,14 @@ def gen(tier, rng, harness, driver):
     for _ in range(n):
         ts, gs = core2gen.gen_core2(rng)
         lines += ["core2.print %s %s" % (ts, gs), "!core2.rt %s %s" % (ts, gs)]
+    # construction scenarios (constructors and builder methods only): values with special type state at several use sites; printed text must be
+    # accepted and reproduced byte for byte by parse + print, and every registered value must report the stated type
+    for name in C.run_lines([harness, "run"], ["api.list"])[0].split(","):
+        lines.append("!api.fix " + name)
+    for site in ("call", "invoke", "callbr"):
+        for kind in ("func", "param", "load", "bitcast", "alias", "asm"):
+            for sg, nx in (("F(v;)", 0), ("F(i32;i8)", 0), ("G(i32;p0(i8))", 0), ("G(i32;p0(i8))", 2), ("G(v;)", 1), ("F(p0(F(v;));i32)", 0)):
+                lines.append("cs.type %s %s %d %s" % (site, sg, nx, kind))
     # call sites: the callee type spelled by call / invoke / callbr for generated signatures (variadic or not, with and without extra arguments)
     from . import tygen
     for _ in range(300 if tier == "quick" else 20000):
@@ -42,6 +50,8 @@ def gen(tier, rng, harness, driver):
         ps = [tygen.gen_ty(rng, rng.randint(0, 2), True) for _ in range(rng.randint(0, 3))]
         var = rng.random() < 0.5
         lines.append("cs.type %s %s(%s;%s) %d" % (rng.choice(["call", "invoke", "callbr"]), "G" if var else "F", ret, ",".join(ps), rng.choice([0, 0, 1, 2]) if var else 0))
+        # the same site with every KIND of callee value (the spelled type depends on the callee's type only, not on what the callee is)
+        lines.append(lines[-1] + " " + rng.choice(["param", "load", "bitcast", "alias", "asm"]))
     # constructors: reuse the C06 / C08 generators (oracle lines only)
     for l in pC06.gen("quick" if tier == "quick" else "thorough", rng, harness, driver)[: (600 if tier == "quick" else 40000)]:
         if l.startswith(("!typ.ok", "typ.ir")):
